@@ -1094,6 +1094,20 @@ impl<'c> Exec<'c> {
             return;
         }
         self.sync();
+        // A completion is waiting in the queue for an operation whose state
+        // block is already gone: a10 would now follow a dangling pointer.
+        // Reported before it does (what follows would be heap corruption,
+        // whose symptoms depend on the allocator).
+        for i in 0..self.ops.len() {
+            if self.ops[i].started && self.ops[i].state_serial.is_some() && !self.ops[i].in_cq.is_empty() && !self.state_live(i) {
+                let p = if self.on("C06") { "C06" } else { "C01" };
+                self.fail(p, "completion-for-freed-state", format!("operation {i} ({:?}): {} completions of its request are still in the completion queue but its state block {:#x} has already been freed", self.ops[i].kind, self.ops[i].in_cq.len(), self.ops[i].user_data & !1));
+                if self.on(p) {
+                    self.stop = true;
+                    return;
+                }
+            }
+        }
         let before: Vec<(bool, u64)> = self.ops.iter().map(|o| (o.final_consumed, o.waker.wakes())).collect();
         let delivered_before: Vec<usize> = self.ops.iter().map(|o| o.delivered.len()).collect();
         let r = catch(|| self.world.poll_ring(Some(Duration::ZERO)));
